@@ -41,6 +41,12 @@ CATALOG = [
 ]
 SHARED = {"A": ((3, 3), "ds"), "B": ((3, 3), "ds"), "C": ((3, 3), "d1s0"), "D": ((3, 3), "dd"),
           "x": ((3,), "d"), "y": ((3,), "s"), "T": ((2, 2, 2), "sss")}
+# argument sets of different dimensions: concurrent calls of one cached method get different ones
+VARIANTS = [
+    {"A": (3, 3), "B": (3, 3), "C": (3, 3), "D": (3, 3), "x": (3,), "y": (3,), "T": (2, 2, 2)},
+    {"A": (2, 4), "B": (2, 4), "C": (4, 4), "D": (2, 4), "x": (4,), "y": (4,), "T": (3, 2, 2)},
+    {"A": (5, 2), "B": (5, 2), "C": (2, 2), "D": (5, 2), "x": (2,), "y": (2,), "T": (2, 3, 2)},
+]
 ENTRY_POINTS = ["evaluate", "tensor_method"]
 WINDOWS = {
     # window name -> (file suffix, function name)
@@ -57,7 +63,8 @@ RULE = (
     "Each evaluation is one simulated concurrent run: N in {2,3,4} (thorough up to 8) caller "
     "threads, 1-4 calls each, over 1-4 distinct problems from a 12-entry catalogue with per-run "
     "fresh output names (so an un-warmed problem really misses the cache), several threads "
-    "sharing the same problem (same cached TensorMethod) and the same input tensors, entry points "
+    "sharing the same problem (same cached TensorMethod), each call with one of up to three "
+    "argument sets of different dimensions (3x3 / 2x4 / 5x2 ...), entry points "
     "evaluate / evaluate_cffi / tensor_method, a seeded pre-warmed subset, back end llvm (quick "
     "~88%) or cffi; schedule strategies: weighted coin, PCT-style change points, targeted windows; "
     "GC injections; heap and capacity knobs. The scheduler pre-empts at line events of tensora/** "
@@ -88,9 +95,10 @@ def gen_plan(seed, cfg):
         entry = rng.choice(ENTRY_POINTS)
         problems.append({"catalog": ci, "name": f"o{seed % 100000:05d}x{k}", "backend": backend,
                          "entry": entry, "prewarm": rng.random() < 0.4})
-    threads = [[rng.randrange(nprob) for _ in range(rng.randint(1, 4 if n <= 4 else 2))]
-               for _ in range(n)]
-    data = {k: _gen_entries(rng, d) for k, (d, f) in SHARED.items()}
+    used_variants = rng.choice([[0], [0, 1], [1, 2], [0, 1, 2]])
+    threads = [[[rng.randrange(nprob), rng.choice(used_variants)]
+                for _ in range(rng.randint(1, 4 if n <= 4 else 2))] for _ in range(n)]
+    data = [{k: _gen_entries(rng, v[k]) for k in sorted(SHARED)} for v in VARIANTS]
     strategy = rng.choice(["coin", "coin", "pct", "targeted", "targeted"])
     sp = {"strategy": strategy,
           "p_hot": rng.choice([0.02, 0.05, 0.1, 0.3]),
@@ -251,25 +259,29 @@ def run_plan(plan, cfg=None):
         heap.reset()
         heap.configure(garbage=g, redzone=z, rz=hk["rz"], realloc=hk["realloc"], zero=hk["zero"],
                        poison=poison)
-        tensors = {}
-        for k, (dims, fmt) in SHARED.items():
-            ent = plan["data"][k]
-            tensors[k] = Tensor.from_aos([tuple(e[0]) for e in ent], [e[1] for e in ent],
-                                         dimensions=dims, format=fmt)
+        tensors = []
+        for vi, var in enumerate(VARIANTS):
+            tv = {}
+            for k, (_, fmt) in SHARED.items():
+                ent = plan["data"][vi][k]
+                tv[k] = Tensor.from_aos([tuple(e[0]) for e in ent], [e[1] for e in ent],
+                                        dimensions=var[k], format=fmt)
+            tensors.append(tv)
+        calls = sorted({(pi, v) for t in plan["threads"] for pi, v in t})
         problems = plan["problems"]
         # ---- reference phase: each distinct call alone, cold cache, untraced
-        ref = []
-        for p in problems:
+        ref = {}
+        for pi, v in calls:
             try:
-                ref.append(("ok", _raw(_do_call(p, tensors))))
+                ref[(pi, v)] = ("ok", _raw(_do_call(problems[pi], tensors[v])))
             except Exception as e:
-                ref.append(("exc", type(e).__name__))
+                ref[(pi, v)] = ("exc", type(e).__name__)
                 del e
         _porcelain.cachable_tensor_method.cache_clear()
         for p in problems:
             if p["prewarm"]:
                 try:
-                    _do_call(p, tensors)
+                    _do_call(p, tensors[0])
                 except Exception:
                     pass
         gc.collect()
@@ -321,10 +333,10 @@ def run_plan(plan, cfg=None):
                 return
             sys.settrace(tracer)
             try:
-                for k, pi in enumerate(plan["threads"][i]):
+                for k, (pi, v) in enumerate(plan["threads"][i]):
                     th.sim_call = f"t{i}c{k}"
                     try:
-                        r = _do_call(problems[pi], tensors)
+                        r = _do_call(problems[pi], tensors[v])
                     except Abandoned:
                         raise
                     except Exception as e:
@@ -370,8 +382,8 @@ def run_plan(plan, cfg=None):
                     # calls into tensora are wrapped one by one in the thread body; anything that
                     # kills the body itself is the harness's own fault
                     raise RuntimeError(f"simulated thread {i} died in harness code: {errors[i]}")
-                for k, (pi, r) in enumerate(zip(plan["threads"][i], results[i])):
-                    exp = ref[pi]
+                for k, ((pi, v), r) in enumerate(zip(plan["threads"][i], results[i])):
+                    exp = ref[(pi, v)]
                     if r[0] == "exc":
                         if exp[0] != "exc" or exp[1] != r[1]:
                             viol("unexpected_exception", f"thread{i}.call{k}", r[1], r[2],
